@@ -29,6 +29,7 @@ from dataclasses import dataclass, field
 from pathlib import Path
 
 PRIM = -1  # "value" of an expression that cannot hold a heap reference
+NONE = -2  # in environments only: the name is bound to the constant None (PRIM for every other purpose)
 
 PRIM_TYPE_NAMES = {"str", "int", "bool", "float", "bytes", "complex", "None", "NoneType", "Path", "PurePath"}
 # Path objects are immutable values as far as the tree is concerned
@@ -316,8 +317,15 @@ def local_names(fn) -> set[str]:
 class FnCtx:
     """Translation context of one function (parameters, return variable, closure variables)."""
 
-    def __init__(self, tr: "Translator", info: FnInfo | None, node, parent: "FnCtx | None", q: str):
-        self.tr, self.info, self.node, self.parent, self.q = tr, info, node, parent, q
+    def __init__(self, tr: "Translator", info: FnInfo | None, node, parent: "FnCtx | None", q: str, inst: str = ""):
+        # `inst`: suffix of a per-call-site instance (functions that forward a keyword dictionary
+        # to dataclasses.replace are translated once per call site, see Translator.inline_fns)
+        self.tr, self.info, self.node, self.parent = tr, info, node, parent
+        self.label_q = q  # write statements keep the name of the function, not of the instance
+        self.inst = inst
+        q = q + inst
+        self.q = q
+        self.none_params: set[str] = set()
         self.locals = local_names(node)
         self.params: dict[str, int] = {}
         self.param_order: list[str] = []
@@ -374,7 +382,17 @@ class Translator:
         self.set_iterations: list[str] = []
         self.dict_iterations: list[str] = []
         self.ambient: list[str] = []
-        self.model_copy_checked = False
+        self.known_dicts: dict[int, dict[str, int]] = {}  # dict objects whose key set is known exactly
+        self.dict_tainted: set[int] = set()
+        self.dict_used: set[int] = set()
+        self.instances: dict[tuple, FnCtx] = {}
+        self.inlined_bases: set[str] = set()
+        self.inline_fns: set[str] = set()
+        for q, info in pkg.fns.items():
+            for n in own_nodes(info.node):
+                if isinstance(n, ast.Call) and ast.unparse(n.func) in ("replace", "dataclasses.replace"):
+                    if any(kw.arg is None and isinstance(kw.value, ast.Name) for kw in n.keywords):
+                        self.inline_fns.add(q)
         self.primv = self.new_var("<prim>")
         self.emit(("assign", self.primv, ("prim",)))
         self.anyv = self.new_var("<unknown>")
@@ -391,13 +409,13 @@ class Translator:
         return len(self.var_names) - 1
 
     def node_var(self, node, role: str, fn: FnCtx) -> int:
-        key = (id(node), role)
+        key = (id(node), role, fn.inst)
         if key not in self.node_vars:
             self.node_vars[key] = self.new_var(f"{fn.q}:{getattr(node, 'lineno', 0)}:{role}")
         return self.node_vars[key]
 
     def site(self, node, role: str, fn: FnCtx) -> int:
-        key = (id(node), role)
+        key = (id(node), role, fn.inst)
         if key not in self.sites:
             self.sites[key] = len(self.site_names)
             self.site_names.append(f"{fn.q}:{getattr(node, 'lineno', 0)}:{role}")
@@ -412,7 +430,7 @@ class Translator:
         """Id of a write statement.  Its stable name `file:function:kind .attr#k` (k-th such write
         of the function in source order; independent of line numbers and of local variable
         names) is assigned in `analyse`."""
-        fkey = fn.q
+        fkey = fn.label_q
         pos = (getattr(node, "lineno", 0), getattr(node, "col_offset", 0))
         key = (fkey, kind, attr, pos)
         if key not in self.labels:
@@ -444,34 +462,27 @@ class Translator:
                 continue
             ctx.done = True
             FnBody(self, ctx).translate()
+        self.finish()
 
-    # -- model_copy shape (the translator special-cases calls to it)
-    def check_model_copy(self):
-        if self.model_copy_checked:
-            return
-        self.model_copy_checked = True
-        for q in self.pkg.by_name.get("model_copy", []):
-            fn = self.pkg.fns[q].node
-            body = [s for s in fn.body if not (isinstance(s, ast.Expr) and isinstance(s.value, ast.Constant))]
-            ok = False
-            if len(body) == 2 and isinstance(body[0], ast.If) and isinstance(body[1], ast.Return):
-                t = body[0].test
-                r0 = body[0].body[0] if len(body[0].body) == 1 else None
-                r1 = body[1].value
-                ok = (
-                    isinstance(t, ast.UnaryOp) and isinstance(t.op, ast.Not) and isinstance(t.operand, ast.Name)
-                    and isinstance(r0, ast.Return) and isinstance(r0.value, ast.Call)
-                    and ast.unparse(r0.value.func) in ("copy", "copy.copy") and len(r0.value.args) == 1
-                    and ast.unparse(r0.value.args[0]) == "self"
-                    and isinstance(r1, ast.Call) and ast.unparse(r1.func) in ("replace", "dataclasses.replace")
-                    and len(r1.args) == 1 and ast.unparse(r1.args[0]) == "self"
-                    and len(r1.keywords) == 1 and r1.keywords[0].arg is None
-                    and ast.unparse(r1.keywords[0].value) == t.operand.id
-                    and not body[0].orelse
-                )
-            if not ok:
-                raise EffectsError(f"{q}: model_copy no longer has the shape "
-                                   "`if not update: return copy(self); return replace(self, **update)`")
+    def instance_for(self, c: FnCtx, call_node) -> FnCtx:
+        key = (c.q, id(call_node))
+        if key not in self.instances:
+            self.instances[key] = FnCtx(self, c.info, c.node, c.parent, c.label_q, inst=f"@{len(self.instances)}")
+            self.inlined_bases.add(c.label_q)
+        return self.instances[key]
+
+    def dict_keys(self, v: int):
+        """the exactly known mapping of a dict object, or None"""
+        if v in self.known_dicts and v not in self.dict_tainted:
+            self.dict_used.add(v)
+            return self.known_dicts[v]
+        return None
+
+    def finish(self):
+        bad = self.dict_used & self.dict_tainted
+        if bad:
+            raise EffectsError("a keyword dictionary forwarded to dataclasses.replace is mutated after its keys were "
+                               "read statically: " + ", ".join(self.var_names[v] for v in sorted(bad)))
 
 
 class Dead(Exception):
@@ -501,7 +512,7 @@ class FnBody:
         return self.tr.primv if v == PRIM else v
 
     def phi(self, node, role: str, vals) -> int:
-        vals = [v for v in dict.fromkeys(vals) if v != PRIM]
+        vals = [v for v in dict.fromkeys(vals) if v not in (PRIM, NONE)]
         if not vals:
             return PRIM
         if len(vals) == 1:
@@ -553,6 +564,9 @@ class FnBody:
         return self.global_name(name)
 
     def global_name(self, name: str) -> int:
+        rel = self.fn.q.split(":")[0]
+        if name in self.pkg.module_names.get(rel, ()):
+            return self.tr.anyv  # a module-level object of this file
         if name in self.pkg.classes or name in self.pkg.by_name:
             return PRIM  # a class / function object
         if name in ("True", "False", "None") or name in PRIM_FUNCS or name in ALLOC_FUNCS:
@@ -561,7 +575,7 @@ class FnBody:
 
     def bind(self, name: str, v: int, env):
         env[name] = frozenset([v])
-        if v != PRIM:
+        if v not in (PRIM, NONE):
             self.assign(self.fn.merged_var(name), ("var", v))
 
     # ---------------------------------------------------------------- expressions
@@ -647,13 +661,28 @@ class FnBody:
             return self.alloc(e, "lit", inits)
         if isinstance(e, ast.Dict):
             inits = []
+            mapping: dict[str, int] | None = {}
             for k, v in zip(e.keys, e.values):
                 if k is None:
-                    inits.append(("[]", self.load(v, "dstar", self.ev(v, env), "[]")))
+                    vs = self.dict_variants(v, env)
+                    src = self.ev(v, env)
+                    inits.append(("[]", self.load(v, "dstar", src, "[]")))
+                    if mapping is not None and vs is not None and len(vs) == 1:
+                        mapping.update(vs[0])
+                    else:
+                        mapping = None
                 else:
                     self.ev(k, env)
-                    inits.append(("[]", self.ev(v, env)))
-            return self.alloc(e, "dict", inits)
+                    val = self.ev(v, env)
+                    inits.append(("[]", val))
+                    if mapping is not None and isinstance(k, ast.Constant) and isinstance(k.value, str):
+                        mapping[k.value] = val
+                    else:
+                        mapping = None
+            x = self.alloc(e, "dict", inits)
+            if mapping is not None:
+                tr.known_dicts[x] = mapping
+            return x
         if isinstance(e, (ast.ListComp, ast.SetComp, ast.GeneratorExp, ast.DictComp)):
             env2 = dict(env)
             for g in e.generators:
@@ -760,9 +789,23 @@ class FnBody:
             if n == "deepcopy":
                 return self.alloc(e, "deepcopy", [])
             if n == "replace" and args:
-                if star_kwargs or star_args:
+                if star_args:
                     return self.replace_unknown(e, args[0])
-                return self.replace_of(e, args[0], list(kwargs.items()))
+                upd: dict[str, int] = {}
+                for kw in e.keywords:
+                    if kw.arg is not None:
+                        continue
+                    vs = self.dict_variants(kw.value, env)
+                    if vs is None:
+                        return self.replace_unknown(e, args[0])
+                    for key in dict.fromkeys(k for m in vs for k in m):
+                        vals = [m[key] for m in vs if key in m]
+                        if len(vals) < len(vs):
+                            # the key is absent in some variants: there the field is inherited
+                            vals.append(self.load(kw, f"inherit:{key}", args[0], key) if not pkg.prim_field(key) else PRIM)
+                        upd[key] = self.phi(kw, f"updval:{key}", vals)
+                upd.update(kwargs)
+                return self.replace_of(e, args[0], list(upd.items()))
             if n == "getattr" and len(e.args) >= 2:
                 nm = e.args[1].value if isinstance(e.args[1], ast.Constant) else None
                 if isinstance(nm, str):
@@ -806,6 +849,24 @@ class FnBody:
             tr.externals[n] = tr.externals.get(n, 0) + 1
             return tr.anyv if any(a != PRIM for a in args + list(kwargs.values()) + extra) else PRIM
 
+        if (isinstance(f, ast.Attribute) and isinstance(f.value, ast.Name)
+                and f.value.id in ("copy", "dataclasses") and not self._is_local(f.value.id)
+                and f.attr in ("copy", "deepcopy", "replace")):
+            synth = getattr(e, "_synth_mod", None)
+            if synth is None:
+                synth = ast.Call(func=ast.Name(id=f.attr, ctx=ast.Load()), args=e.args, keywords=e.keywords)
+                ast.copy_location(synth, e)
+                ast.copy_location(synth.func, e)
+                e._synth_mod = synth
+            return self.call(synth, env)
+        # object.__setattr__(x, "f", v) / object.__delattr__(x, "f")
+        if (isinstance(f, ast.Attribute) and f.attr in ("__setattr__", "__delattr__") and isinstance(f.value, ast.Name)
+                and (f.value.id == "object" or f.value.id in pkg.classes) and len(e.args) >= 2):
+            nm = e.args[1].value if isinstance(e.args[1], ast.Constant) else "*"
+            if args[0] != PRIM:
+                self.emit(("store", tr.label(self.fn, e, "setattr", str(nm)), args[0], tr.fld(str(nm)),
+                           self.as_var(args[2]) if len(args) > 2 else tr.primv))
+            return PRIM
         if isinstance(f, ast.Attribute):
             m = f.attr
             # super().m(...): the base-class behaviour of builtin containers is modelled at the
@@ -829,22 +890,10 @@ class FnBody:
                         return self.bind_call(e, [c], args, kwargs, extra, recv=PRIM)
                     return self.bind_call(e, [c], args[1:], kwargs, extra, recv=args[0] if args else tr.anyv)
             recv = self.ev(f.value, env)
-            if m == "model_copy" and "model_copy" in pkg.by_name:
-                tr.check_model_copy()
-                upd_node = e.args[0] if e.args else next((k.value for k in e.keywords if k.arg == "update"), None)
-                if upd_node is None:
-                    return self.copy_of(e, recv, [])
-                if isinstance(upd_node, ast.Dict) and all(
-                    isinstance(k, ast.Constant) and isinstance(k.value, str) for k in upd_node.keys
-                ):
-                    if not upd_node.keys:
-                        return self.copy_of(e, recv, [])
-                    upd = [(k.value, self.ev(v, env)) for k, v in zip(upd_node.keys, upd_node.values)]
-                    return self.replace_of(e, recv, upd)
-                return self.replace_unknown(e, recv)
             result = None
             if m in MUTATORS:
                 if recv != PRIM:
+                    tr.dict_tainted.add(recv)
                     ins = [a for a in args + list(kwargs.values()) + extra if a != PRIM]
                     if m in ("extend", "update", "__iadd__", "extendleft", "difference_update",
                              "intersection_update", "symmetric_difference_update"):
@@ -934,6 +983,9 @@ class FnBody:
         for c in targets:
             if c is None:
                 continue
+            if c.info is not None and c.label_q in tr.inline_fns and not c.inst:
+                c = tr.instance_for(c, e)
+            bound_from: dict[str, int] = {}
             pos = list(c.param_order)
             if recv is not None and c.is_method and not c.is_static:
                 first = pos.pop(0) if pos else None
@@ -946,6 +998,7 @@ class FnBody:
                 if i < len(pos):
                     pname = pos[i]
                     bound.add(pname)
+                    bound_from[pname] = a
                     if a != PRIM and pname not in c.prim_params:
                         self.assign(c.params[pname], ("var", a))
                 elif c.vararg:
@@ -953,6 +1006,7 @@ class FnBody:
                         self.assign(c.params[c.vararg], ("var", self.alloc(e, f"varargs:{c.q}", [("[]", a)])))
             for k, a in kwargs.items():
                 if k in c.params and k not in (c.vararg, c.kwarg):
+                    bound_from[k] = a
                     if a != PRIM and k not in c.prim_params:
                         self.assign(c.params[k], ("var", a))
                 elif c.kwarg and a != PRIM:
@@ -965,9 +1019,88 @@ class FnBody:
                             self.assign(pv, ("var", self.alloc(e, f"spread:{c.q}", [("[]", x)])))
                         else:
                             self.assign(pv, ("var", x))
+            if c.inst and not c.done:
+                # per-call-site instance: what is known about the arguments is known about the
+                # parameters (keyword dictionaries with exactly known keys, omitted `= None` defaults)
+                c.done = True
+                if not extra:
+                    for pname, a in bound_from.items():
+                        m = tr.dict_keys(a) if a not in (PRIM, NONE) else None
+                        if m is not None:
+                            tr.known_dicts[c.params[pname]] = m
+                    defaults = self._param_defaults(c.node)
+                    for pname in c.params:
+                        if pname not in bound_from and pname not in (c.param_order[:1] if c.is_method else []):
+                            d = defaults.get(pname)
+                            if isinstance(d, ast.Constant) and d.value is None:
+                                c.none_params.add(pname)
+                FnBody(tr, c).translate()
             if not c.ret_prim:
                 results.append(c.ret)
         return self.phi(e, "callres", results)
+
+    @staticmethod
+    def _param_defaults(node) -> dict:
+        a = node.args
+        pos = a.posonlyargs + a.args
+        out = {p.arg: d for p, d in zip(pos[len(pos) - len(a.defaults):], a.defaults)}
+        out.update({p.arg: d for p, d in zip(a.kwonlyargs, a.kw_defaults) if d is not None})
+        return out
+
+    def dict_variants(self, expr, env):
+        """[mapping] for every object the expression may denote if all of them are dictionaries with
+        exactly known keys (the constant None counts as the empty mapping), else None"""
+        if isinstance(expr, ast.Name) and expr.id in self.fn.locals and expr.id in env:
+            out = []
+            for d in env[expr.id]:
+                if d == NONE:
+                    out.append({})
+                    continue
+                m = self.tr.dict_keys(d) if d != PRIM else None
+                if m is None:
+                    return None
+                out.append(m)
+            return out or None
+        if isinstance(expr, ast.Dict):
+            v = self.ev(expr, env)
+            m = self.tr.dict_keys(v)
+            return None if m is None else [m]
+        return None
+
+    def fold(self, test, env):
+        """True / False when the test is decided by what is statically known about keyword
+        dictionaries (`not update`, `"k" in update`, …), else None"""
+        if isinstance(test, ast.Constant):
+            return bool(test.value)
+        if isinstance(test, ast.UnaryOp) and isinstance(test.op, ast.Not):
+            r = self.fold(test.operand, env)
+            return None if r is None else not r
+        if isinstance(test, ast.Name):
+            vs = self.dict_variants(test, env)
+            if vs is None:
+                return None
+            truth = {bool(m) for m in vs}
+            return truth.pop() if len(truth) == 1 else None
+        if isinstance(test, ast.Compare) and len(test.ops) == 1 and isinstance(test.ops[0], (ast.In, ast.NotIn)) \
+                and isinstance(test.left, ast.Constant) and isinstance(test.left.value, str):
+            vs = self.dict_variants(test.comparators[0], env)
+            if vs is None:
+                return None
+            truth = {test.left.value in m for m in vs}
+            if len(truth) != 1:
+                return None
+            r = truth.pop()
+            return r if isinstance(test.ops[0], ast.In) else not r
+        if isinstance(test, ast.BoolOp):
+            rs = [self.fold(v, env) for v in test.values]
+            if isinstance(test.op, ast.And):
+                if any(r is False for r in rs):
+                    return False
+                return True if all(r is True for r in rs) else None
+            if any(r is True for r in rs):
+                return True
+            return False if all(r is False for r in rs) else None
+        return None
 
     # ---------------------------------------------------------------- allocation of package objects
     def copy_of(self, e, y: int, upd: list[tuple[str, int]]) -> int:
@@ -979,13 +1112,30 @@ class FnBody:
         self.assign(x, ("copy", s, y, uu))
         return x
 
+    def post_inits_for(self, obj_expr) -> list[str]:
+        """`__post_init__` methods that may run when `obj_expr` is replaced: those of the class of
+        `self` and its subclasses when the object is the `self` of a method, else all of them."""
+        pkg = self.pkg
+        allq = list(pkg.by_name.get("__post_init__", []))
+        c = self.fn
+        if isinstance(obj_expr, ast.Name) and c.is_method and not c.is_static and not c.is_classmethod \
+                and c.param_order and obj_expr.id == c.param_order[0] and c.cls in pkg.classes:
+            qs = []
+            for sub in pkg.subclasses(c.cls):
+                q = pkg.find_method(sub, "__post_init__")
+                if q is not None and q not in qs:
+                    qs.append(q)
+            return qs
+        return allq
+
     def replace_of(self, e, y: int, upd: list[tuple[str, int]]) -> int:
         """dataclasses.replace(y, **upd): shallow copy with the given fields, then `__post_init__`
-        (of whatever class y has: every package `__post_init__`) runs on the copy."""
+        runs on the copy."""
         x = self.copy_of(e, y, upd)
         if x == PRIM:
             return PRIM
-        for q in self.pkg.by_name.get("__post_init__", []):
+        obj_expr = e.args[0] if getattr(e, "args", None) else None
+        for q in self.post_inits_for(obj_expr):
             c = self.tr.ctx_for(q)
             if c.param_order:
                 self.assign(c.params[c.param_order[0]], ("var", x))
@@ -1109,6 +1259,7 @@ class FnBody:
             base = self.ev(t.value, env)
             self.ev(t.slice, env) if not isinstance(t.slice, ast.Slice) else None
             if base != PRIM:
+                tr.dict_tainted.add(base)
                 ins = (v,) if v != PRIM else ()
                 if isinstance(t.slice, ast.Slice) and v != PRIM:
                     ins = tuple(x for x in [self.load(node, "sliceassign", v, "[]")] if x != PRIM)
@@ -1129,7 +1280,9 @@ class FnBody:
         fn = self.fn
         env: dict[str, frozenset] = {}
         for name, v in fn.params.items():
-            if name in fn.prim_params:
+            if name in fn.none_params:
+                env[name] = frozenset([NONE])
+            elif name in fn.prim_params:
                 env[name] = frozenset([PRIM])
             else:
                 env[name] = frozenset([v])
@@ -1137,15 +1290,17 @@ class FnBody:
         # defaults
         a = fn.node.args
         pos = a.posonlyargs + a.args
+        # default values are evaluated once, at definition time: a mutable default is an object
+        # shared by all calls (never Fresh)
         for p, d in zip(pos[len(pos) - len(a.defaults):], a.defaults):
             dv = self.ev(d, env)
             if dv != PRIM and p.arg not in fn.prim_params:
-                self.assign(fn.params[p.arg], ("var", dv))
+                self.assign(fn.params[p.arg], ("unknown",))
         for p, d in zip(a.kwonlyargs, a.kw_defaults):
             if d is not None:
                 dv = self.ev(d, env)
                 if dv != PRIM and p.arg not in fn.prim_params:
-                    self.assign(fn.params[p.arg], ("var", dv))
+                    self.assign(fn.params[p.arg], ("unknown",))
         # pre-create nested function contexts (they may be called before their def is reached)
         for n in own_nodes(fn.node):
             if isinstance(n, (ast.FunctionDef, ast.AsyncFunctionDef)):
@@ -1183,7 +1338,11 @@ class FnBody:
             v = self.ev(st.value, env)
             self.track_set_name(st)
             for t in st.targets:
-                self.assign_target(t, v, env, st)
+                if (isinstance(st.value, ast.Constant) and st.value.value is None and isinstance(t, ast.Name)
+                        and t.id in self.fn.locals):
+                    env[t.id] = frozenset([NONE])
+                else:
+                    self.assign_target(t, v, env, st)
             return env
         if isinstance(st, ast.AnnAssign):
             if st.value is not None:
@@ -1197,6 +1356,11 @@ class FnBody:
             return self.augassign(st, env)
         if isinstance(st, ast.If):
             self.ev(st.test, env)
+            decided = self.fold(st.test, env)
+            if decided is True:
+                return self.block(st.body, dict(env))
+            if decided is False:
+                return self.block(st.orelse, dict(env))
             e1 = self.block(st.body, dict(env))
             e2 = self.block(st.orelse, dict(env))
             return self.join([e1, e2])
@@ -1572,7 +1736,7 @@ def analyse(root: Path) -> Extracted:
     return Extracted(
         stmts=stmts, nvars=nvars, var_abs=var_abs, fld_abs=fld_abs, labels=labels, label_sites=label_sites,
         label_attr=label_attr, label_kind={labels[st[1]]: st[0] for st in stmts if st[0] in ('store', 'mutate')},
-        violations=viol, reachable=sorted(q for q, c in tr.ctxs.items() if c.done),
+        violations=viol, reachable=sorted({q for q, c in tr.ctxs.items() if c.done} | tr.inlined_bases),
         externals=dict(sorted(tr.externals.items())),
         property_uses={k: sorted(v) for k, v in sorted(tr.property_uses.items())},
         set_iterations=tr.set_iterations, dict_iterations=tr.dict_iterations, fields=tr.fields,
